@@ -580,4 +580,3 @@ func TestFilterThroughSwarm(t *testing.T) {
 		}
 	})
 }
-
